@@ -82,6 +82,27 @@ let print_tree (base : int) (t : tree) : string =
 let toks_of (s : string) : string array =
   Array.of_list (List.filter (fun x -> x <> "") (String.split_on_char ' ' s))
 
+(* C27: expressions in prefix notation: A p i | U p op e | B p op l r *)
+let parse_expr (toks : string array) : expr =
+  let pos = ref 0 in
+  let next () = if !pos < Array.length toks then (let t = toks.(!pos) in incr pos; t) else raise (Bad "eof") in
+  let rec go () =
+    match next () with
+    | "A" -> let p = int_of_string (next ()) in let i = int_of_string (next ()) in Atom (nat_of_int p, n_of_int i)
+    | "U" -> let p = int_of_string (next ()) in let op = int_of_string (next ()) in let x = go () in Un (nat_of_int p, n_of_int op, x)
+    | "B" -> let p = int_of_string (next ()) in let op = int_of_string (next ()) in let l = go () in let r = go () in
+      Bin (nat_of_int p, n_of_int op, l, r)
+    | t -> raise (Bad ("unexpected " ^ t)) in
+  let e = go () in
+  if !pos <> Array.length toks then raise (Bad "trailing tokens");
+  e
+
+let rec print_expr (e : expr) : string =
+  match e with
+  | Atom (p, a) -> Printf.sprintf "A %d %d" (int_of_nat p) (int_of_n a)
+  | Un (p, op, x) -> Printf.sprintf "U %d %d %s" (int_of_nat p) (int_of_n op) (print_expr x)
+  | Bin (p, op, l, r) -> Printf.sprintf "B %d %d %s %s" (int_of_nat p) (int_of_n op) (print_expr l) (print_expr r)
+
 let handle (f : string list) : string =
   match f with
   | ["clone"; ctx; ts] ->
@@ -109,6 +130,23 @@ let handle (f : string list) : string =
     (try
       let t = parse_tree (toks_of ts) in
       if ast_hyp t then "ok" else "hypothesis-fails"
+    with Bad m -> "driver-error:" ^ m)
+  | ["c27print"; es; atoms] ->
+    (try
+      let e = parse_expr (toks_of es) in
+      let al = List.mapi (fun i h -> (n_of_int i, (if h = "-" then [] else bytes_of_hex h)))
+                 (List.filter (fun x -> x <> "") (String.split_on_char ',' atoms)) in
+      if not (c27_wf e) then "not-wf"
+      else (match c27_print_string al e with Some s -> "ok:" ^ hex_of_bytes s | None -> "panic")
+    with Bad m -> "driver-error:" ^ m)
+  | ["c27parse"; es] ->
+    (try
+      let e = parse_expr (toks_of es) in
+      if not (c27_wf e) then "not-wf"
+      else (match c27_roundtrip e with
+            | Some (Some e') -> "ok:" ^ print_expr e'
+            | Some None -> "syntax-error"
+            | None -> "panic")
     with Bad m -> "driver-error:" ^ m)
   | _ -> "driver-error:unknown-command"
 
